@@ -112,21 +112,25 @@ def structEq : Value ν → Value ν → Except Err Bool
   | .func, .func => .error .compareFunctions
   | _, _ => .ok false
 def eqList : List (Thunk ν) → List (Thunk ν) → Except Err Bool
+  | [], _ => .ok true
+  | _ :: _, [] => .ok true
+  | .fail e :: _, _ :: _ => .error e
+  | .val _ :: _, .fail e :: _ => .error e
   | .val a :: xs, .val b :: ys =>
     match structEq a b with
     | .ok true => eqList xs ys
-    | r => r
-  | .fail e :: _, _ :: _ => .error e
-  | .val _ :: _, .fail e :: _ => .error e
-  | _, _ => .ok true
+    | .ok false => .ok false
+    | .error e => .error e
 def eqFields : List (String × Thunk ν) → List (String × Thunk ν) → Except Err Bool
+  | [], _ => .ok true
+  | _ :: _, [] => .ok true
+  | (_, .fail e) :: _, _ :: _ => .error e
+  | (_, .val _) :: _, (_, .fail e) :: _ => .error e
   | (_, .val a) :: xs, (_, .val b) :: ys =>
     match structEq a b with
     | .ok true => eqFields xs ys
-    | r => r
-  | (_, .fail e) :: _, _ :: _ => .error e
-  | (_, .val _) :: _, (_, .fail e) :: _ => .error e
-  | _, _ => .ok true
+    | .ok false => .ok false
+    | .error e => .error e
 end
 
 mutual
@@ -146,12 +150,14 @@ def cmpThunks : List (Thunk ν) → List (Thunk ν) → Except Err Ordering
   | [], [] => .ok .eq
   | [], _ :: _ => .ok .lt
   | _ :: _, [] => .ok .gt
+  | .fail e :: _, _ :: _ => .error e
+  | .val _ :: _, .fail e :: _ => .error e
   | .val a :: xs, .val b :: ys =>
     match lexCompare a b with
     | .ok .eq => cmpThunks xs ys
-    | r => r
-  | .fail e :: _, _ :: _ => .error e
-  | .val _ :: _, .fail e :: _ => .error e
+    | .ok .lt => .ok .lt
+    | .ok .gt => .ok .gt
+    | .error e => .error e
 end
 
 /-- The nine observable operations, on thunks (an operand may itself fail). -/
